@@ -181,7 +181,7 @@ def generate(cases, mobs, order, kind, want=40):
     for cid in order:
         c = cases[cid]
         o = mobs.get(cid, {})
-        if not _small(c['line']) or 'GX' in o or ' sig=' in c['line'] or ' bops=' in c['line']:
+        if not _small(c['line']) or 'GX' in o or ' sig=' in c['line'] or ' bops=' in c['line'] or ' yld=' in c['line']:
             continue
         if kind == 'builder' and c['kind'] == 'B' and o.get('B') == 'ok' and not c['family'].startswith(('timed', 'wide', 'layered', 'bigconf')):
             if len(c['parts'][0].split()) <= 30:
